@@ -602,3 +602,90 @@ def run(ctx):
     # what unmake restores must have been saved by every producer of moves (shared with C02.R7)
     from . import c02
     c02.r7_every_move_fully_recorded(ctx, "C03.R8")
+
+
+def r9_undo_fields_round_trip(ctx):
+    """what make_move stores for the take-back comes out of the getter unchanged"""
+    rid = "C03.R9"
+    ctx.rule(rid, "the two undo fields of a Move return what was stored: get_previous_halfmove(set_previous_halfmove(v)) = v for clock values, get_previous_en_passant_square(set_previous_en_passant_square(v)) = v for no square and for each of the 16 possible e.p. targets of the side to move - evaluated on the setter's and getter's code (every path, helpers spliced in) for each value", floor=2)
+    from . import movefields as MF
+    from ..paths import returning_paths, NotLoopFree
+    prog = ctx.prog
+    BITS = ("f", ("*", ("param", 1)), "bits")
+    inl = Inliner(prog, only=lambda k: (k.startswith("inkayaku_board::board::") and not k.startswith("inkayaku_board::board::Bitboard::")) or k.startswith("inkayaku_core::constants::"))
+    side_get = prog.fns.get(MF.MOVE + "get_side_to_move")
+    side_shift = None
+    if side_get is not None:
+        try:
+            ps = returning_paths(side_get)
+            if len(ps) == 1:
+                # find the bit: evaluate the getter on single-bit words
+                for sh in range(64):
+                    v = fold(subst(ps[0].ret(), {BITS: ("c", 1 << sh, "u64", None)}))
+                    if v == 1:
+                        side_shift = sh
+                        break
+        except (NotLoopFree, Unfoldable, TypeError):
+            side_shift = None
+
+    def run_fn(f, env):
+        """value returned / bits written on the path feasible under env; None if it cannot be evaluated"""
+        try:
+            pes = returning_paths(f, inliner=inl)
+        except NotLoopFree:
+            return None
+        for pe in pes:
+            try:
+                ok = True
+                for (d, c, b, ty) in pe.conds:
+                    v = fold(subst(d, env))
+                    if (v in c[1]) != (c[0] == "in"):
+                        ok = False
+                        break
+                if not ok:
+                    continue
+                w = [val for (pl, val, b_) in pe.writes if pl == BITS]
+                return (fold(subst(pe.ret(), env)) if not w else None, fold(subst(w[-1], env)) if w else None)
+            except (Unfoldable, TypeError):
+                return None
+        return None
+
+    cases = {"previous_halfmove": [(None, v) for v in (0, 1, 49, 50, 99, 100, 150, 2047, 4095)],
+             "previous_en_passant_square": [(0, 0), (1, 0)] + [(0, 16 + fl) for fl in range(8)] + [(1, 40 + fl) for fl in range(8)]}
+    for name, lst in sorted(cases.items()):
+        s_fn, g_fn = prog.fns.get(MF.MOVE + "set_" + name), prog.fns.get(MF.MOVE + "get_" + name)
+        if s_fn is None or g_fn is None:
+            ctx.lost(rid, "Move::set_%s / get_%s" % (name, name))
+            continue
+        bad, undecided = None, False
+        for side, v in lst:
+            base = 0 if side in (None, 0) or side_shift is None else (1 << side_shift)
+            if side == 1 and side_shift is None:
+                undecided = True
+                break
+            r = run_fn(s_fn, {BITS: ("c", base, "u64", None), ("param", 2): ("c", v, "u32", None)})
+            if r is None or r[1] is None:
+                undecided = True
+                break
+            g = run_fn(g_fn, {BITS: ("c", r[1], "u64", None)})
+            if g is None or g[0] is None:
+                undecided = True
+                break
+            if g[0] != v:
+                bad = (side, v, g[0])
+                break
+        if undecided:
+            ctx.lost(rid, "set_%s / get_%s as evaluable code" % (name, name))
+            continue
+        ctx.ob(rid, "%s|get(set(v))=v" % name, bad is None,
+               "" if bad is None else "Move::get_%s returns %d for a move in which set_%s stored %d%s: unmake restores that value - after a make/unmake pair the position differs from the one before (an e.p. target one rank off, a wrong clock)" % (
+                   name, bad[2], name, bad[1], "" if bad[0] is None else " (%s to move)" % ("black" if bad[0] else "white")),
+               ctx.where(g_fn), sample={"values": len(lst)})
+
+
+_run_before_r9_undo = run
+
+
+def run(ctx):
+    _run_before_r9_undo(ctx)
+    r9_undo_fields_round_trip(ctx)
